@@ -213,8 +213,10 @@ def run_batch(exe, prop, first, count, tag, nworkers=None):
         if c <= 0:
             break
         prefix = os.path.join(BUILD, 'out', '%s-%d-%d' % (tag, os.getpid(), w))
+        # batches do not symbolise sanitizer reports (the signature does not need it; replays do symbolise)
+        env = dict(os.environ, ASAN_OPTIONS='symbolize=0', UBSAN_OPTIONS='symbolize=0:print_stacktrace=0')
         p = subprocess.Popen([exe, '--prop', prop, '--batch', str(f), str(c), prefix],
-                             stdout=subprocess.DEVNULL, stderr=subprocess.PIPE, text=True)
+                             stdout=subprocess.DEVNULL, stderr=subprocess.PIPE, text=True, env=env)
         procs.append((p, prefix))
     viol, summ = [], None
     summ_extra = {}
